@@ -670,7 +670,12 @@ pub fn run_line(line: &str, out: &mut String) {
     };
     let cap: usize = head.trim().strip_prefix("cap=").unwrap().parse().unwrap();
     let ops: Vec<&str> = evs.split(" ; ").map(|s| s.trim()).filter(|s| !s.is_empty()).collect();
-    let mut ob: Option<ObservableVector<u32>> = Some(ObservableVector::with_capacity(cap));
+    // the default capacity is 16: new() / default() / with_capacity(16) are then equivalent entry points
+    let mut ob: Option<ObservableVector<u32>> = Some(match (cap, line.len() % 3) {
+        (16, 0) => ObservableVector::new(),
+        (16, 1) => ObservableVector::default(),
+        _ => ObservableVector::with_capacity(cap),
+    });
     let mut w = World {
         subs: vec![],
         shadow: vec![],
@@ -682,6 +687,18 @@ pub fn run_line(line: &str, out: &mut String) {
         out: vec![],
     };
     let mut it = ops.iter();
+    // From<Vector<T>>: a history on the default capacity that starts with an append may be built
+    // from that vector instead (documented as new() + append)
+    if cap == 16 && line.len() % 2 == 0 {
+        if let Some(first) = ops.first().filter(|o| o.starts_with("append[")) {
+            let (_, arg) = split_op(first);
+            let v = parse_vec(arg);
+            w.shadow = v.iter().copied().collect();
+            ob = Some(ObservableVector::from(v));
+            w.out.push("()".into());
+            it.next();
+        }
+    }
     while let Some(op) = it.next() {
         let (name, arg) = split_op(op);
         if MUTATORS.contains(&name) || name == "eset" || name == "eremove" {
